@@ -184,11 +184,27 @@ def _cause(e):
             return [_perr_cause(e["perr"])]
         if e["leaks"]:
             return ["goroutine left"]
+        if e["before"] == e["after"] and e.get("bfmt") == e.get("afmt") and e.get("bci") != e.get("aci"):
+            return ["coverage table with gaps or out of order (indices not 0..n-1 in glyph order)"]
         if e["before"] == e["after"] and e.get("bfmt") != e.get("afmt"):
             return ["subtable format not preserved (%s%d)" % (e["shape"]["tab"], e["shape"]["typ"])]
         if e["before"] != e["after"]:
             return ["parsed lookup list differs (%s%d)" % (e["shape"]["tab"], e["shape"]["typ"])]
         return ["instance does not conform to its shape (harness)"]
+    if e["ev"] == "reparse":
+        if not e["returned"]:
+            return ["hang"]
+        if e["xpanic"] or e["ppanic"]:
+            return ["describing a parsed lookup list panics: " + re.sub(r"\d+", "N", e["xpanic"] or e["ppanic"])[:60]]
+        if e["leaks"]:
+            return ["goroutine left"]
+        if e["perr2"]:
+            return ["description of a parsed lookup list is not parsed back: " + _perr_cause(e["perr2"])]
+        if e["l1"] != e["l2"]:
+            return ["parsed lookup list changes when described and parsed again"]
+        if e["f1"] != e["f2"]:
+            return ["subtable format changes when described and parsed again"]
+        return ["coverage table with gaps or out of order (indices not 0..n-1 in glyph order)"]
     if e["ev"] == "num":
         if not e["returned"]:
             return ["hang"]
@@ -210,6 +226,8 @@ def _cause(e):
             return ["hang"]
         if e["perr"] or e["ppanic"]:
             return ["description %d not parsed: %s" % (e["mid"], (e["perr"] or e["ppanic"])[:60])]
+        if any(q != i for l in e.get("gci", []) for st in l for t in st for i, q in enumerate(t)):
+            return ["coverage table with gaps or out of order (indices not 0..n-1 in glyph order)"]
         return ["description %d parsed to a different lookup list" % e["mid"]]
     return ["other"]
 
@@ -312,7 +330,8 @@ def _replay_cases(ctx, cases, boost=1):
 
 
 def _report(ctx, case, ev, cause, count):
-    part = {"parse": "totality", "rt": "roundtrip", "mean": "meaning", "num": "numbers", "errline": "error line"}[ev["ev"]]
+    part = {"parse": "totality", "rt": "roundtrip", "mean": "meaning", "num": "numbers", "errline": "error line",
+            "reparse": "roundtrip"}[ev["ev"]]
     if cause == "hang":
         text = case.get("text") or ev.get("text") or ""
         what = ("builder.Parse (or Explain) does not return: on the text %r (font %s) the call was still running after the "
@@ -339,6 +358,13 @@ def _report(ctx, case, ev, cause, count):
                    ev["perr"], ev["xpanic"], ev["ppanic"], json.dumps(ev["before"])[:400],
                    json.dumps(ev["after"])[:400], count))
         sig = {"part": part, "cause": cause, "table": s["tab"], "type": s["typ"], "forms": "+".join(s["forms"])}
+    elif ev["ev"] == "reparse":
+        what = ("a text the parser accepts denotes a lookup list the language can express, but describing that list and "
+                "parsing the description does not give it back (%s): text %r (font %s) parsed to %s (coverage indices %s); "
+                "described as %r; parsed again: error %r, %s (coverage indices %s) [%d rejected observations of this kind]"
+                % (cause, ev["text"][:300], ev["font"], json.dumps(ev["l1"])[:400], json.dumps(ev["ci1"])[:120],
+                   ev["text2"][:300], ev["perr2"], json.dumps(ev["l2"])[:400], json.dumps(ev["ci2"])[:120], count))
+        sig = {"part": part, "cause": cause}
     elif ev["ev"] == "num":
         what = ("a number in a description must be represented exactly or be refused (%s): text %r; Parse error %r; "
                 "parsed %s [%d rejected; place %d, literal no. %d of DslLang.tla]"
@@ -629,7 +655,7 @@ def run(ctx):
     ctx.log("round trips: %d shapes, %d hand-specified descriptions" % (len(shapes), len(means)))
     shown = 0
     for e in vlib.read_ndjson(souts[0][0]):
-        if e["errs"] > 0 and e["procs"] > 1 and shown < 2:
+        if e["ev"] == "parse" and e["errs"] > 0 and e["procs"] > 1 and shown < 2:
             ctx.sample({"recorded_observation": e})
             shown += 1
     with open(routs[0][0]) as f:
